@@ -44,8 +44,9 @@ Record scfg := mkScfg {
   s_limit : N;              (* maximum (compressed) message size, 0 = none *)
   s_dlimit : N;             (* maximum decompressed message size, 0 = none *)
   s_avail : bytes -> N      (* decompressor progress (library): number of output bytes the inflater has
-                               produced when it has been given this prefix of a compressed message and
-                               asks for more input; only consulted when s_dlimit > 0 *)
+                               handed out when it has been given this prefix of a compressed message and
+                               asks for more input (at_eof prefix: when it is told that the stream ended
+                               there); only consulted when s_dlimit > 0 *)
 }.
 
 Definition no_avail : bytes -> N := fun _ => 0.
@@ -177,7 +178,7 @@ Definition spec_data (P : spolicy) (c : scfg) (inflate : bytes -> option bytes) 
     match take_n len bs3 with
     | None =>
         (* the stream ends inside this frame: what has arrived may already be too big *)
-        if dtrip c compressed (acc ++ unmask c key bs3) then FEnd [SEnd OTooBig] else FEnd [SEnd OEof]
+        if dtrip c compressed (at_eof (acc ++ unmask c key bs3)) then FEnd [SEnd OTooBig] else FEnd [SEnd OEof]
     | Some (pl, bs4) =>
         let data := acc ++ unmask c key pl in
         if fin then complete P c inflate typ compressed data bs4
